@@ -203,7 +203,11 @@ func newRig(cfg Config) (*rig, error) {
 		}
 		n.e = e
 		stub := func(c *cluster.Cluster) actor.Producer { return func() actor.Receiver { return idle{} } }
-		ccfg := cluster.NewConfig().WithEngine(e).WithID(name).WithRequestTimeout(3 * time.Second)
+		rt := 3 * time.Second
+		if !cfg.Provider && len(cfg.Up) == 0 {
+			rt = 500 * time.Millisecond // membership mode: some behaviours end with an activation request nobody answers
+		}
+		ccfg := cluster.NewConfig().WithEngine(e).WithID(name).WithRequestTimeout(rt)
 		if !cfg.Provider {
 			ccfg = ccfg.WithProvider(stub)
 		} else if len(cfg.Ghosts) > 0 {
@@ -419,6 +423,8 @@ func describe(st Step) string {
 		return fmt.Sprintf("snapshot(%s,%v,dup=%v)", st.N, st.S, st.Dup)
 	case "HandleMembers":
 		return "handleMembers(" + st.N + ")"
+	case "ActivateTimeout":
+		return fmt.Sprintf("activate-timeout(%s,%s->%s)", st.N, st.K, st.M)
 	case "Activate":
 		return fmt.Sprintf("activate(%s,%s/%s->%s)=%s", st.N, st.K, st.I, st.M, st.Ret)
 	case "Deactivate":
@@ -711,6 +717,15 @@ func runScenario(cfg Config, sc Scenario) (fail *Failure) {
 			}
 			r.sendSnapshot(n, n.snap[0], n.dups[0])
 			n.snap, n.dups = n.snap[1:], n.dups[1:]
+			touched = append(touched, st.N)
+		case "ActivateTimeout":
+			// the select function picks a member that never answers: nil after the request timeout, nothing else changes
+			n := r.nodes[st.N]
+			want := st.M
+			sel := func(d cluster.ActivationDetails) *cluster.Member { return r.member(want) }
+			if pid := n.c.Activate(st.K, cluster.NewActivationConfig().WithID("t").WithSelectMemberFunc(sel)); pid != nil {
+				return bad(i, fmt.Sprintf("Activate(%s) routed to %s, which never answers, returned %v", st.K, want, pid))
+			}
 			touched = append(touched, st.N)
 		case "Activate":
 			n := r.nodes[st.N]
